@@ -167,6 +167,20 @@ fn install_and_check(ctx: &Ctx, rng: &mut Rng, is128: bool, path: &str, st: &mut
     let scr = random_screen(rng);
     let mut shown = scr.clone();
     let mut note = String::new();
+    if is128 && path.starts_with("sna") && rng.bool() {
+        // the receiving 128K machine is not fresh: other pictures sit in both screen banks (so the
+        // display's decoded copies are stale for the snapshot) and either bank may be the shown one
+        let p5 = random_screen(rng);
+        let p7 = random_screen(rng);
+        ldir_install(&mut m, &p5, 0x4000);
+        m.out(0x7FFD, 7);
+        ldir_install(&mut m, &p7, 0xC000);
+        let prior = *rng.pick(&[0x08u8, 0x0F, 0x0B, 0x00, 0x07, 0x18, 0x28, 0x20]);
+        m.out(0x7FFD, prior);
+        quiet(&mut m);
+        m.run_frames(1 + rng.below(2) as usize);
+        note = format!("(receiver had latch {:02x} and other pictures in banks 5 and 7)", prior);
+    }
     match path {
         "ldir-4000" => ldir_install(&mut m, &scr, 0x4000),
         "ldir-c000-bank5" => {
@@ -307,7 +321,7 @@ fn install_and_check(ctx: &Ctx, rng: &mut Rng, is128: bool, path: &str, st: &mut
             m.run_frames(2);
             let first = if shown7 { &scr7 } else { &scr };
             if matches(&m, first).is_none() {
-                ctx.violation("canvas:128k:sna-then-flip:visible-bank", &format!("after loading a 128K snapshot (latch {:02x}) the canvas is not the decode of the shown bank: {}", port, first_diff(&m, first)), jobj! {"case"=>case,"path"=>path});
+                ctx.violation("canvas:128k:sna-then-flip:visible-bank", &format!("after loading a 128K snapshot (latch {:02x}) {} the canvas is not the decode of the shown bank: {}", port, note, first_diff(&m, first)), jobj! {"case"=>case,"path"=>path});
                 return;
             }
             for k in 0..3 {
@@ -319,7 +333,7 @@ fn install_and_check(ctx: &Ctx, rng: &mut Rng, is128: bool, path: &str, st: &mut
                 if matches(&m, want).is_none() {
                     ctx.violation(
                         "canvas:128k:sna-then-flip:hidden-bank",
-                        &format!("128K snapshot loaded with latch {:02x}; after flipping latch bit 3 to {} the canvas is not the decode of bank {}: {}", port, now7 as u8, if now7 { 7 } else { 5 }, first_diff(&m, want)),
+                        &format!("128K snapshot loaded with latch {:02x} {}; after flipping latch bit 3 to {} the canvas is not the decode of bank {}: {}", port, note, now7 as u8, if now7 { 7 } else { 5 }, first_diff(&m, want)),
                         jobj! {"case"=>case,"path"=>path,"flip"=>k},
                     );
                     return;
